@@ -238,6 +238,19 @@ def _run_cfg(ctx, rep, prog, cfg):
     rep.floor("raw counter readers" + tag, nreads, table["floors"]["working_counter_readers"])
     # the derive(Debug) impl also reads the field; it is in the table under its impl name.
 
+    # ---- C11.send: inventory of the fire-and-forget write --------------------------------------
+    us = table["unchecked_sends"]
+    cnt = Counter()
+    locs = {}
+    for x in prog.calls_of("WrappedWrite::send"):
+        if x.body.crate == "ethercrab" and not x.body.d.get("is_test"):
+            cnt[x.body.root_short] += 1
+            locs.setdefault(x.body.root_short, x.span)
+    for fn, n in sorted(cnt.items()):
+        e = us.get(fn)
+        ok = e is not None and n <= e["count"]
+        rep.ob("C11.send", "%s%s" % (fn, tag), ok, ("audited (%d of %d): %s" % (n, e["count"], e["reason"])) if ok else "UNAUDITED fire-and-forget write: %s calls WrappedWrite::send %d time(s) where tables/optouts.json allows %d - its working counter is never looked at, so a device that did not answer is reported as success" % (fn, n, e["count"] if e else 0), loc=locs[fn], how="inventory", nontrivial=not ok)
+    rep.floor("fire-and-forget send sites" + tag, sum(cnt.values()), 21)
     # ---- C11.pair --------------------------------------------------------------------------
     pair = table["pairing"]
     npair = 0
